@@ -18,6 +18,7 @@ type SaveLoadPlan struct {
 	ChunkSeed uint64 `json:"chunk_seed"` // short-read pattern of the reader
 	MaxChunk  int    `json:"max_chunk"`
 	CleanUp   bool   `json:"cleanup"` // run CleanUp on the source before saving
+	ReadAdv   int64  `json:"read_adv,omitempty"` // the stream is slow: every Read of the load moves the clock by this much
 }
 
 // simStream is the simulated "disk": writes are kept; reads come back in short, irregular chunks,
@@ -29,6 +30,7 @@ type simStream struct {
 	Reads    int
 	Short    int
 	EOFWith  int
+	onRead   func()
 }
 
 func (s *simStream) Write(p []byte) (int, error) { return s.buf.Write(p) }
@@ -48,6 +50,9 @@ func (s *simStream) Read(p []byte) (int, error) {
 		}
 	}
 	s.Reads++
+	if s.onRead != nil {
+		s.onRead()
+	}
 	m, _ := s.buf.Read(p[:n])
 	if s.buf.Len() == 0 && s.rng.Bool() {
 		s.EOFWith++
@@ -103,9 +108,20 @@ func (s *seqState) saveLoad(w *simrt.World, sc *SeqCase) {
 		}
 	}
 	tr := NewRunner(w, &tcfg)
+	if pl.ReadAdv > 0 {
+		// a slow stream: the clock moves while LoadCacheFrom reads, so "load time" is an interval
+		st.onRead = func() { r.Advance(pl.ReadAdv) }
+	}
 	if err := otter.LoadCacheFrom(tr.C, st); err != nil {
 		m.fail(props, "load.error", -1, "LoadCacheFrom failed on a healthy stream: %v", err)
 		return
+	}
+	st.onRead = nil
+	m.now = w.Now
+	tLoad0 := tLoad // clock when the load began; tLoad: clock when it ended
+	tLoad = m.now
+	if tLoad != tLoad0 {
+		m.Probes["saveload-clock-moved-during-load"]++
 	}
 	m.Probes["saveload"]++
 	m.Probes["stream-short-reads"] += st.Short
